@@ -354,21 +354,23 @@ Section C06.
     step s e ch = SR s' out ->
     s_nodes s' = s_nodes s \/
     exists a id ta u victim,
-      origin s e a id ta u /\ upd_delta (s_nodes s) (s_now s) a id ta u victim (s_nodes s').
+      origin s e a id ta u /\ upd_delta (s_nodes s) (s_now s) a id ta u victim (s_nodes s') /\
+      (victim = ch_victim ch \/ victim = None).
   Proof.
     destruct e as [src size dec|d|i p id|qid dst q a rated t|qid|a id|bl|].
     - intros H. apply step_packet in H as [(-> & _)|(m & s0 & u & s1 & r & -> & Hpf & Hc & Hu & Hr & Hn & Ht)];
         [left; reflexivity|].
       apply update_node_spec in Hu as [_ Hd]; [|exact Hr]. right.
       destruct Hc as [(Hy & -> & ->)|(Hy & -> & Hn0 & Ht0 & x & Hx1 & Hx2 & _)].
-      + do 5 eexists. split; [apply o_query; eauto|]. rewrite Hn. exact Hd.
-      + do 5 eexists. split; [apply o_resp; eauto; exists x; auto|]. rewrite Hn, <- Hn0, <- Ht0. exact Hd.
+      + do 5 eexists. split; [apply o_query; eauto|]. split; [rewrite Hn; exact Hd|left; reflexivity].
+      + do 5 eexists. split; [apply o_resp; eauto; exists x; auto|].
+        split; [rewrite Hn, <- Hn0, <- Ht0; exact Hd|left; reflexivity].
     - unfold Server.step. intros H; inversion H; subst. left; reflexivity.
     - unfold Server.step. destruct (update_node s _ _ _ _ _) as [[s1 r]|] eqn:Eu; [|discriminate].
       intros H. assert (Hr : r <> BadChoice) by (destruct r; congruence).
       assert (s' = s1) by (destruct r; congruence). subst s1.
       apply update_node_spec in Eu as [_ Hd]; [|exact Hr]. right.
-      do 5 eexists. split; [apply o_api|exact Hd].
+      do 5 eexists. split; [apply o_api|]. split; [exact Hd|left; reflexivity].
     - unfold Server.step. intros H.
       repeat match type of H with
              | context[match ?x with _ => _ end] => destruct x eqn:?
@@ -380,9 +382,442 @@ Section C06.
       { intros ->. unfold Server.update_node in Eu.
         destruct (get_node _ _ _ _); cbn in Eu; inversion Eu. }
       right. apply update_node_spec in Eu as [_ Hd]; [|exact Hr].
-      do 5 eexists. split; [apply o_fail|exact Hd].
+      do 5 eexists. split; [apply o_fail|]. split; [exact Hd|right; reflexivity].
     - unfold Server.step. intros H; inversion H; subst. left; reflexivity.
     - unfold Server.step. intros H; inversion H; subst. left; reflexivity.
+  Qed.
+
+  (* ---------------------------------------------------------------- consequences of the deltas *)
+  Lemma get_node_none nodes a i n :
+    get_node cfg nodes a i = None -> i <> c_root cfg -> In n nodes -> n_slot n = slot_of i ->
+    node_key n = (i, addr_key a) -> False.
+  Proof.
+    unfold get_node. intros H Hi Hin Hs Hk. apply N.eqb_neq in Hi. rewrite Hi in H.
+    pose proof (find_none _ _ H n Hin) as F. cbn beta in F.
+    rewrite Hs, Nat.eqb_refl in F. apply same_node_key in Hk. rewrite Hk in F. discriminate.
+  Qed.
+
+  Lemma node_bad_false n :
+    node_bad n = false ->
+    n_id n <> c_root cfg /\ n_id n <> 0%N /\
+    (c_no_security cfg = true \/ id_secure (n_id n) (ip (n_addr n)) = true) /\ n_failed n = false.
+  Proof.
+    unfold Server.node_bad. intros H.
+    apply orb_false_iff in H as [H H4]. apply orb_false_iff in H as [H H3].
+    apply orb_false_iff in H as [H1 H2].
+    apply N.eqb_neq in H1, H2. apply negb_false_iff, orb_true_iff in H3. auto.
+  Qed.
+
+  Lemma node_good_facts now n :
+    node_good now n = true -> node_bad n = false /\ n_lr n <> None.
+  Proof.
+    unfold Server.node_good. intros H. apply andb_true_iff in H as [H1 H2].
+    apply negb_true_iff in H1. split; [exact H1|].
+    destruct (n_lr n); [discriminate|]. cbn in H2. discriminate.
+  Qed.
+
+  Lemma good_not_evictable now now' n0 n : node_good now n = true -> evictable now' n0 n = false.
+  Proof.
+    intros H. apply node_good_facts in H as [H1 H2]. unfold Server.evictable.
+    rewrite H1. destruct (n_lr n); [|congruence]. rewrite andb_false_r. reflexivity.
+  Qed.
+
+  Lemma upd_delta_new nodes now a id ta u victim nodes' n :
+    upd_delta nodes now a id ta u victim nodes' -> In n nodes' -> ~ In (node_key n) (map node_key nodes) ->
+    exists i, id = Some i /\ ta = true /\ i <> c_root cfg /\
+      n = apply_update now u (mkNode i a None None false (slot_of i)) /\ node_bad n = false /\
+      get_node cfg nodes a i = None /\ table_delta nodes now n victim nodes'.
+  Proof.
+    intros Hd Hin Hnew. destruct Hd as [->|i l1 m l2 -> -> -> Hk ->|i n0 -> -> Hi Hg Hn0 Hb Ht].
+    - exfalso. apply Hnew. apply in_map. exact Hin.
+    - exfalso. apply Hnew. rewrite map_app, in_app_iff. cbn [map In].
+      apply in_app_iff in Hin as [Hin|[<-|Hin]].
+      + left. apply in_map; exact Hin.
+      + right; left. rewrite apply_update_key. reflexivity.
+      + right; right. apply in_map; exact Hin.
+    - assert (n = n0).
+      { destruct Ht as [_ _ ->|vk vid v l1 m l2 _ _ _ _ _ -> _ ->].
+        - apply in_app_iff in Hin as [Hin|[<-|[]]]; [|reflexivity].
+          exfalso. apply Hnew. apply in_map; exact Hin.
+        - rewrite !in_app_iff in Hin. destruct Hin as [Hin|[Hin|[<-|[]]]]; [| |reflexivity];
+            exfalso; apply Hnew; apply in_map; rewrite in_app_iff; cbn [In]; auto. }
+      subst n0. exists i. subst n. repeat split; auto.
+  Qed.
+
+  Lemma upd_delta_fate nodes now a id ta u victim nodes' n :
+    NoDup (map node_key nodes) -> upd_delta nodes now a id ta u victim nodes' -> In n nodes ->
+    In (node_key n) (map node_key nodes') \/
+    exists i n0, id = Some i /\ ta = true /\ i <> c_root cfg /\
+      n0 = apply_update now u (mkNode i a None None false (slot_of i)) /\ node_bad n0 = false /\
+      get_node cfg nodes a i = None /\ In n0 nodes' /\
+      (K <= length (bucket nodes (n_slot n0)))%nat /\ n_slot n = n_slot n0 /\
+      evictable now n0 n = true /\ victim <> None.
+  Proof.
+    intros Hnd Hd Hin. destruct Hd as [->|i l1 m l2 -> -> -> Hk ->|i n0 -> -> Hi Hg Hn0 Hb Ht].
+    - left. apply in_map. exact Hin.
+    - left. rewrite map_app, in_app_iff. cbn [map In].
+      apply in_app_iff in Hin as [Hin|[<-|Hin]].
+      + left. apply in_map; exact Hin.
+      + right; left. rewrite apply_update_key. reflexivity.
+      + right; right. apply in_map; exact Hin.
+    - destruct Ht as [_ _ ->|vk vid v l1 m l2 -> Hfull Hv Hs He Hnodes Hk ->].
+      + left. apply in_map. apply in_app_iff. auto.
+      + rewrite Hnodes in Hin. apply in_app_iff in Hin as [Hin|[<-|Hin]].
+        * left. apply in_map. rewrite !in_app_iff. auto.
+        * assert (m = v).
+          { apply (NoDup_map_inj node_key nodes); auto. rewrite Hnodes, in_app_iff. cbn; auto. }
+          subst m. right. exists i, n0. repeat split; auto.
+          -- rewrite !in_app_iff. cbn; auto.
+          -- discriminate.
+        * left. apply in_map. rewrite !in_app_iff. auto.
+  Qed.
+
+  Lemma upd_delta_kept nodes now a id ta u victim nodes' n n' :
+    NoDup (map node_key nodes) -> (forall x, In x nodes -> n_slot x = slot_of (n_id x)) ->
+    upd_delta nodes now a id ta u victim nodes' -> In n nodes -> In n' nodes' ->
+    node_key n' = node_key n ->
+    n' = n \/ (id = Some (n_id n) /\ addr_key a = addr_key (n_addr n) /\ n' = apply_update now u n).
+  Proof.
+    intros Hnd Hslot Hd Hin Hin' Hk.
+    destruct Hd as [->|i l1 m l2 -> -> Hnodes Hkm ->|i n0 -> -> Hi Hg Hn0 Hb Ht].
+    - left. apply (NoDup_map_inj node_key nodes); auto.
+    - assert (Hm : In m nodes) by (rewrite Hnodes, in_app_iff; cbn; auto).
+      apply in_app_iff in Hin' as [Hin'|[<-|Hin']].
+      + left. apply (NoDup_map_inj node_key nodes); auto. rewrite Hnodes, in_app_iff; auto.
+      + rewrite apply_update_key in Hk.
+        assert (m = n) by (apply (NoDup_map_inj node_key nodes); auto). subst m.
+        right. unfold node_key in Hkm. inversion Hkm. repeat split; congruence.
+      + left. apply (NoDup_map_inj node_key nodes); auto. rewrite Hnodes, in_app_iff; cbn; auto.
+    - assert (Hn0' : n' = n0 -> False).
+      { intros ->. apply (get_node_none _ _ _ n Hg Hi Hin).
+        - rewrite (Hslot n Hin). f_equal. unfold node_key in Hk.
+          rewrite Hn0, apply_update_id, apply_update_addr in Hk. cbn in Hk. inversion Hk; auto.
+        - rewrite <- Hk, Hn0, apply_update_key. reflexivity. }
+      left. destruct Ht as [_ _ ->|vk vid v l1 m l2 _ _ _ _ _ Hnodes _ ->].
+      + apply in_app_iff in Hin' as [Hin'|[<-|[]]]; [|exfalso; auto].
+        apply (NoDup_map_inj node_key nodes); auto.
+      + rewrite !in_app_iff in Hin'. destruct Hin' as [Hin'|[Hin'|[<-|[]]]]; [| |exfalso; auto];
+          apply (NoDup_map_inj node_key nodes); auto; rewrite Hnodes, in_app_iff; cbn; auto.
+  Qed.
+
+  Lemma origin_sender s e a id ta u i :
+    origin s e a id ta u -> id = Some i -> ta = true ->
+    (exists size m idb,
+        e = EPacket a size (Some m) /\ passes_filters s a size /\ m_ro m = false /\
+        sender_id m = Some idb /\ toN idb = i /\
+        ((m_y m = s_q /\ u = UQuery) \/ (m_y m <> s_q /\ solicited s a m /\ u = UResponse)))
+    \/ (exists b p, e = EAddNode b p i /\ a = mkAddr b p /\ u = UNone).
+  Proof.
+    intros Ho Hid Hta. destruct Ho as [src size m Hpf Hy|src size m Hpf Hy Hsol|b p id0|a0 id0].
+    - left. destruct (sender_id m) as [idb|] eqn:Es; [|discriminate]. cbn in Hid. inversion Hid.
+      apply negb_true_iff in Hta. exists size, m, idb.
+      split; [reflexivity|]. split; [exact Hpf|]. split; [exact Hta|]. split; [exact Es|].
+      split; [reflexivity|]. left; auto.
+    - left. destruct (sender_id m) as [idb|] eqn:Es; [|discriminate]. cbn in Hid. inversion Hid.
+      apply negb_true_iff in Hta. exists size, m, idb.
+      split; [reflexivity|]. split; [exact Hpf|]. split; [exact Hta|]. split; [exact Es|].
+      split; [reflexivity|]. right; auto.
+    - right. inversion Hid; subst. exists b, p. auto.
+    - discriminate.
+  Qed.
+
+  (* ================================================================ C06: who may enter *)
+  (* A key that was not in the table before the step belongs to the direct sender of a datagram that
+     passed the filters, is not flagged read-only and is a query or answers a pending query of this
+     node — or it was handed to the add API.  The new entry is not bad. *)
+  Theorem C06_entry s e ch s' out n :
+    step s e ch = SR s' out -> In n (s_nodes s') -> ~ In (node_key n) (keys s) ->
+    node_bad n = false /\
+    ((exists src size m idb,
+         e = EPacket src size (Some m) /\ passes_filters s src size /\ m_ro m = false /\
+         sender_id m = Some idb /\ toN idb = n_id n /\ n_addr n = src /\
+         (m_y m = s_q \/ (m_y m <> s_q /\ solicited s src m)))
+     \/ (exists b p, e = EAddNode b p (n_id n) /\ n_addr n = mkAddr b p)).
+  Proof.
+    intros Hstep Hin Hnew. apply step_table in Hstep as [Heq|(a & id & ta & u & victim & Ho & Hd & _)].
+    { exfalso. apply Hnew. unfold keys. rewrite <- Heq. apply in_map; exact Hin. }
+    destruct (upd_delta_new _ _ _ _ _ _ _ _ _ Hd Hin Hnew) as (i & Hid & Hta & Hi & Hn & Hb & Hg & Ht).
+    split; [exact Hb|].
+    assert (Hnid : n_id n = i) by (rewrite Hn, apply_update_id; reflexivity).
+    assert (Hna : n_addr n = a) by (rewrite Hn, apply_update_addr; reflexivity).
+    destruct (origin_sender _ _ _ _ _ _ _ Ho Hid Hta)
+      as [(size & m & idb & -> & Hpf & Hro & Hs & Ht' & Hc)|(b & p & -> & -> & _)].
+    - left. exists a, size, m, idb. rewrite Hnid.
+      split; [reflexivity|]. split; [exact Hpf|]. split; [exact Hro|]. split; [exact Hs|].
+      split; [exact Ht'|]. split; [exact Hna|].
+      destruct Hc as [[Hy _]|(Hy & Hsol & _)]; auto.
+    - right. exists b, p. rewrite Hnid. auto.
+  Qed.
+
+  (* at most the sender: whatever else a message lists (nodes, nodes6, values, target, info_hash ...)
+     cannot become an entry *)
+  Theorem C06_never_from_hearsay s src size m ch s' out n :
+    step s (EPacket src size (Some m)) ch = SR s' out ->
+    In n (s_nodes s') -> ~ In (node_key n) (keys s) ->
+    n_addr n = src /\ option_map toN (sender_id m) = Some (n_id n).
+  Proof.
+    intros Hstep Hin Hnew.
+    destruct (C06_entry _ _ _ _ _ _ Hstep Hin Hnew) as
+      [_ [(src' & size' & m' & idb & He & _ & _ & Hs & Hid & Ha & _)|(b & p & He & _)]]; [|discriminate].
+    inversion He; subst. rewrite Hs. cbn. split; congruence.
+  Qed.
+
+  Theorem C06_never_from_hearsay_listed s src size m ch s' out id' a' :
+    step s (EPacket src size (Some m)) ch = SR s' out ->
+    (a' <> src \/ option_map toN (sender_id m) <> Some id') ->
+    ~ exists n, In n (s_nodes s') /\ ~ In (node_key n) (keys s) /\ n_id n = id' /\ n_addr n = a'.
+  Proof.
+    intros Hstep Hne (n & Hin & Hnew & Hid & Ha).
+    destruct (C06_never_from_hearsay _ _ _ _ _ _ _ _ Hstep Hin Hnew) as [H1 H2].
+    destruct Hne as [F|F]; apply F; congruence.
+  Qed.
+
+  (* a datagram stopped by the filters, an undecodable one, an unsolicited or mismatched response
+     changes nothing at all *)
+  Theorem C06_never_filtered s src size dec ch s' out :
+    step s (EPacket src size dec) ch = SR s' out -> ~ passes_filters s src size -> s' = s /\ out = [].
+  Proof.
+    intros Hstep Hf. apply step_packet in Hstep as [(-> & -> & _)|(m & s0 & u & s1 & r & _ & Hpf & _)]; tauto.
+  Qed.
+
+  Theorem C06_never_blocked s src size dec ch s' out :
+    step s (EPacket src size dec) ch = SR s' out -> blocked (s_blocklist s) (ip src) = true ->
+    s' = s /\ out = [].
+  Proof.
+    intros Hstep Hb. apply (C06_never_filtered _ _ _ _ _ _ _ Hstep). intros (_ & _ & _ & F). congruence.
+  Qed.
+
+  Theorem C06_never_from_unsolicited s src size m ch s' out :
+    step s (EPacket src size (Some m)) ch = SR s' out -> m_y m <> s_q -> ~ solicited s src m ->
+    s' = s /\ out = [].
+  Proof.
+    intros Hstep Hy Hns.
+    apply step_packet in Hstep as [(-> & -> & _)|(m' & s0 & u & s1 & r & Hm & _ & Hc & _)]; [tauto|].
+    inversion Hm; subst m'. exfalso.
+    destruct Hc as [(F & _)|(_ & _ & _ & _ & x & Hx1 & Hx2 & _)]; [auto|]. apply Hns. exists x; auto.
+  Qed.
+
+  (* a read-only sender is never added: the set of keys is unchanged *)
+  Theorem C06_never_readonly s src size m ch s' out :
+    step s (EPacket src size (Some m)) ch = SR s' out -> m_ro m = true -> keys s' = keys s.
+  Proof.
+    intros Hstep Hro. apply step_table in Hstep as [Heq|(a & id & ta & u & victim & Ho & Hd & _)].
+    { unfold keys. rewrite Heq. reflexivity. }
+    assert (Hta : ta = false).
+    { inversion Ho; subst; rewrite Hro; reflexivity. }
+    unfold keys. destruct Hd as [->|i l1 x l2 _ _ -> _ ->|i n0 _ F]; [reflexivity| |congruence].
+    rewrite !map_app. cbn [map]. rewrite apply_update_key. reflexivity.
+  Qed.
+
+  Theorem C06_never_insecure s e ch s' out n :
+    c_no_security cfg = false ->
+    step s e ch = SR s' out -> In n (s_nodes s') -> ~ In (node_key n) (keys s) ->
+    id_secure (n_id n) (ip (n_addr n)) = true.
+  Proof.
+    intros Hsec Hstep Hin Hnew. destruct (C06_entry _ _ _ _ _ _ Hstep Hin Hnew) as [Hb _].
+    apply node_bad_false in Hb as (_ & _ & [F|F] & _); congruence.
+  Qed.
+
+  Theorem C06_never_own_or_zero_id s e ch s' out n :
+    step s e ch = SR s' out -> In n (s_nodes s') -> ~ In (node_key n) (keys s) ->
+    n_id n <> c_root cfg /\ n_id n <> 0%N.
+  Proof.
+    intros Hstep Hin Hnew. destruct (C06_entry _ _ _ _ _ _ Hstep Hin Hnew) as [Hb _].
+    apply node_bad_false in Hb as (H1 & H2 & _). auto.
+  Qed.
+
+  (* ================================================================ C06: who may be displaced *)
+  Lemma newcomer_good_is_response now u i a sl :
+    node_good now (apply_update now u (mkNode i a None None false sl)) = true -> u = UResponse.
+  Proof.
+    intros H. apply node_good_facts in H as [_ H].
+    destruct u; cbn in H; congruence.
+  Qed.
+
+  (* what happens to an entry of the old table: its key survives, or it was the victim of an
+     eviction; then its bucket was full, it was evictable w.r.t. the newcomer n0, and n0 is a new
+     entry of the same bucket *)
+  Lemma step_fate s e ch s' out n :
+    Inv s -> step s e ch = SR s' out -> In n (s_nodes s) ->
+    In (node_key n) (keys s') \/
+    exists a id ta u i n0,
+      origin s e a id ta u /\ id = Some i /\ ta = true /\
+      n0 = apply_update (s_now s) u (mkNode i a None None false (slot_of i)) /\
+      node_bad n0 = false /\ In n0 (s_nodes s') /\ ~ In (node_key n0) (keys s) /\
+      (K <= length (bucket (s_nodes s) (n_slot n)))%nat /\ n_slot n0 = n_slot n /\
+      evictable (s_now s) n0 n = true /\ ch_victim ch <> None.
+  Proof.
+    intros HI Hstep Hin.
+    apply step_table in Hstep as [Heq|(a & id & ta & u & victim & Ho & Hd & Hv)].
+    { left. unfold keys. rewrite Heq. apply in_map; exact Hin. }
+    destruct (upd_delta_fate _ _ _ _ _ _ _ _ n (inv_nodup _ _ _ HI) Hd Hin)
+      as [Hk|(i & n0 & Hid & Hta & Hi & Hn0 & Hb & Hg & Hin0 & Hfull & Hs & He & Hvi)]; [left; exact Hk|].
+    right. exists a, id, ta, u, i, n0. rewrite Hs. repeat split; auto.
+    - unfold keys. intros F. apply in_map_iff in F as (x & Hx1 & Hx2).
+      apply (get_node_none _ _ _ x Hg Hi Hx2).
+      + destruct (inv_slot _ _ _ HI x Hx2) as (Hsx & _). rewrite Hsx. unfold Server.slot_of.
+        f_equal. unfold node_key in Hx1. rewrite Hn0, apply_update_id in Hx1. cbn in Hx1. congruence.
+      + rewrite Hx1, Hn0, apply_update_key. reflexivity.
+    - destruct Hv as [->| ->]; congruence.
+  Qed.
+
+  (* a contact that is good now is never removed *)
+  Theorem C06_good_kept s e ch s' out n :
+    Inv s -> step s e ch = SR s' out -> In n (s_nodes s) -> node_good (s_now s) n = true ->
+    In (node_key n) (keys s').
+  Proof.
+    intros HI Hstep Hin Hg.
+    destruct (step_fate _ _ _ _ _ _ HI Hstep Hin) as [Hk|(a & id & ta & u & i & n0 & H)]; [exact Hk|].
+    destruct H as (_ & _ & _ & _ & _ & _ & _ & _ & _ & He & _).
+    rewrite (good_not_evictable _ _ _ _ Hg) in He. discriminate.
+  Qed.
+
+  (* an entry is displaced only from a full bucket, by a new not-bad entry of the same bucket, and
+     only if it is bad, or it has never answered and the newcomer has just answered one of this
+     node's own queries *)
+  Theorem C06_displaced_only s e ch s' out n :
+    Inv s -> step s e ch = SR s' out -> In n (s_nodes s) -> ~ In (node_key n) (keys s') ->
+    exists n',
+      In n' (s_nodes s') /\ ~ In (node_key n') (keys s) /\ n_slot n' = n_slot n /\ node_bad n' = false /\
+      (K <= length (bucket (s_nodes s) (n_slot n)))%nat /\
+      (node_bad n = true \/
+       (n_lr n = None /\ node_good (s_now s) n' = true /\ n_lr n' = Some (s_now s) /\
+        exists src size m idb,
+          e = EPacket src size (Some m) /\ passes_filters s src size /\ m_y m <> s_q /\
+          solicited s src m /\ m_ro m = false /\ sender_id m = Some idb /\
+          n_id n' = toN idb /\ n_addr n' = src)).
+  Proof.
+    intros HI Hstep Hin Hgone.
+    destruct (step_fate _ _ _ _ _ _ HI Hstep Hin) as [Hk|(a & id & ta & u & i & n0 & H)]; [tauto|].
+    destruct H as (Ho & Hid & Hta & Hn0 & Hb & Hin0 & Hnew & Hfull & Hs & He & _).
+    exists n0. repeat split; auto.
+    unfold Server.evictable in He. apply orb_true_iff in He as [He|He]; [left; exact He|right].
+    apply andb_true_iff in He as [Hg Hlr].
+    split; [destruct (n_lr n); [discriminate|reflexivity]|]. split; [exact Hg|].
+    assert (Hu : u = UResponse) by (rewrite Hn0 in Hg; exact (newcomer_good_is_response _ _ _ _ _ Hg)).
+    split; [rewrite Hn0, Hu; reflexivity|].
+    destruct (origin_sender _ _ _ _ _ _ _ Ho Hid Hta)
+      as [(size & m & idb & He' & Hpf & Hro & Hsd & Hti & Hc)|(b & p & _ & _ & Hc)]; [|congruence].
+    destruct Hc as [[_ Hc]|(Hy & Hsol & _)]; [congruence|].
+    exists a, size, m, idb. rewrite Hn0, apply_update_id, apply_update_addr. cbn [n_id n_addr].
+    split; [exact He'|]. split; [exact Hpf|]. split; [exact Hy|]. split; [exact Hsol|].
+    split; [exact Hro|]. split; [exact Hsd|]. split; [symmetry; exact Hti|reflexivity].
+  Qed.
+
+  (* ================================================================ C06: admission *)
+  Lemma update_node_admit s a i u victim s1 r :
+    update_node s a (Some i) true u victim = Ok (s1, r) -> r <> BadChoice ->
+    i <> c_root cfg -> i <> 0%N -> (c_no_security cfg = true \/ id_secure i (ip a) = true) ->
+    u <> UFailedPing ->
+    (length (bucket (s_nodes s) (slot_of i)) < K)%nat ->
+    In (i, addr_key a) (map node_key (s_nodes s1)) /\ victim = None /\ r = Added.
+  Proof.
+    intros H Hr Hi H0 Hsec Hu Hroom. unfold Server.update_node in H.
+    destruct (get_node cfg (s_nodes s) a i) as [g|] eqn:Eg.
+    - destruct victim; inversion H; subst; [congruence|]. split; [|auto]. cbn [Server.s_nodes with_nodes].
+      destruct (replace_node_spec (addr_key a) i (apply_update (s_now s) u) (s_nodes s))
+        as [(l1 & m & l2 & E1 & E2 & E3)|E3]; rewrite E3.
+      + rewrite map_app, in_app_iff. right. cbn [map In]. left.
+        rewrite apply_update_key. apply same_node_key. exact E2.
+      + unfold get_node in Eg. destruct (N.eqb i (c_root cfg)); [discriminate|].
+        apply find_some in Eg as [Eg1 Eg2]. apply andb_true_iff in Eg2 as [_ Eg2].
+        apply same_node_key in Eg2. rewrite <- Eg2. apply in_map. exact Eg1.
+    - pose proof Hi as Hi'. apply N.eqb_neq in Hi'. rewrite Hi' in H. cbn [negb orb] in H.
+      remember (apply_update (s_now s) u (mkNode i a None None false (slot_of i))) as n0 eqn:Hn0.
+      assert (Hid0 : n_id n0 = i) by (rewrite Hn0, apply_update_id; reflexivity).
+      assert (Had0 : n_addr n0 = a) by (rewrite Hn0, apply_update_addr; reflexivity).
+      assert (Hb : node_bad n0 = false).
+      { unfold Server.node_bad. rewrite Hid0, Had0.
+        replace (n_failed n0) with false by (rewrite Hn0; destruct u; try reflexivity; congruence).
+        apply N.eqb_neq in H0. rewrite Hi', H0.
+        destruct Hsec as [-> | ->]; rewrite ?orb_true_r; reflexivity. }
+      unfold Server.add_node in H. rewrite Hb, Hid0 in H.
+      apply Nat.leb_gt in Hroom. rewrite Hroom in H.
+      destruct victim; [inversion H; subst; congruence|].
+      destruct (table_add s n0) as [s3|] eqn:Et; [|discriminate].
+      inversion H; subst s3 r; clear H.
+      destruct (table_add_spec _ _ _ Et) as (F1 & _). split; [|auto].
+      rewrite F1, map_app, in_app_iff. right. cbn. left. rewrite Hid0, Had0. reflexivity.
+  Qed.
+
+  (* a sender eligible under the rules is in the table after the step whenever its bucket has room,
+     and the step is accepted only with no victim *)
+  Theorem C06_admitted s src size m idb ch s' out :
+    step s (EPacket src size (Some m)) ch = SR s' out ->
+    passes_filters s src size -> m_ro m = false -> sender_id m = Some idb ->
+    (m_y m = s_q \/ solicited s src m) ->
+    toN idb <> c_root cfg -> toN idb <> 0%N ->
+    (c_no_security cfg = true \/ id_secure (toN idb) (ip src) = true) ->
+    (length (bucket (s_nodes s) (slot_of (toN idb))) < K)%nat ->
+    In (toN idb, addr_key src) (keys s') /\ ch_victim ch = None.
+  Proof.
+    intros Hstep Hpf Hro Hsd Hc Hi H0 Hsec Hroom.
+    apply step_packet in Hstep as [(_ & _ & [F|[F|(m' & Hm & Hy & Hns)]])|
+                                   (m' & s0 & u & s1 & r & Hm & _ & Hc' & Hu & Hr & Hn & _)].
+    - tauto.
+    - discriminate.
+    - inversion Hm; subst m'. destruct Hc; tauto.
+    - inversion Hm; subst m'. rewrite Hsd, Hro in Hu. cbn [option_map negb] in Hu.
+      unfold keys. rewrite Hn.
+      assert (Hs0 : s_nodes s0 = s_nodes s) by (destruct Hc' as [(_ & -> & _)|(_ & _ & E & _)]; auto).
+      assert (Hu' : u <> UFailedPing) by (destruct Hc' as [(_ & _ & ->)|(_ & -> & _)]; discriminate).
+      rewrite <- Hs0 in Hroom.
+      destruct (update_node_admit _ _ _ _ _ _ _ Hu Hr Hi H0 Hsec Hu' Hroom) as (H1 & H2 & _). auto.
+  Qed.
+
+  Theorem C06_admitted_api s b p id ch s' out :
+    step s (EAddNode b p id) ch = SR s' out ->
+    id <> c_root cfg -> id <> 0%N ->
+    (c_no_security cfg = true \/ id_secure id b = true) ->
+    (length (bucket (s_nodes s) (slot_of id)) < K)%nat ->
+    In (id, addr_key (mkAddr b p)) (keys s') /\ ch_victim ch = None.
+  Proof.
+    unfold Server.step. destruct (update_node s _ _ _ _ _) as [[s1 r]|] eqn:Eu; [|discriminate].
+    intros H Hi H0 Hsec Hroom. assert (Hr : r <> BadChoice) by (destruct r; congruence).
+    assert (s' = s1) by (destruct r; congruence). subst s1.
+    assert (Hu' : UNone <> UFailedPing) by discriminate.
+    destruct (update_node_admit _ _ _ _ _ _ _ Eu Hr Hi H0 Hsec Hu' Hroom) as (H1 & H2 & _). auto.
+  Qed.
+
+  (* ================================================================ C06: liveness evidence *)
+  (* lastGotResponse of an existing entry is set only by a solicited response from its own address
+     and id, lastGotQuery only by a query from it *)
+  Theorem C06_timestamps s e ch s' out n n' :
+    Inv s -> step s e ch = SR s' out -> In n (s_nodes s) -> In n' (s_nodes s') ->
+    node_key n' = node_key n ->
+    (n_lr n' <> n_lr n ->
+     exists src size m idb,
+       e = EPacket src size (Some m) /\ passes_filters s src size /\ m_y m <> s_q /\
+       solicited s src m /\ sender_id m = Some idb /\ toN idb = n_id n /\
+       addr_key src = addr_key (n_addr n) /\ n_lr n' = Some (s_now s)) /\
+    (n_lq n' <> n_lq n ->
+     exists src size m idb,
+       e = EPacket src size (Some m) /\ passes_filters s src size /\ m_y m = s_q /\
+       sender_id m = Some idb /\ toN idb = n_id n /\
+       addr_key src = addr_key (n_addr n) /\ n_lq n' = Some (s_now s)).
+  Proof.
+    intros HI Hstep Hin Hin' Hk.
+    apply step_table in Hstep as [Heq|(a & id & ta & u & victim & Ho & Hd & _)].
+    { rewrite Heq in Hin'.
+      assert (n' = n) by (apply (NoDup_map_inj node_key (s_nodes s)); auto; apply (inv_nodup _ _ _ HI)).
+      subst n'. split; congruence. }
+    assert (Hslot : forall x, In x (s_nodes s) -> n_slot x = slot_of (n_id x)).
+    { intros x Hx. destruct (inv_slot _ _ _ HI x Hx) as (Hsx & _). exact Hsx. }
+    destruct (upd_delta_kept _ _ _ _ _ _ _ _ _ _ (inv_nodup _ _ _ HI) Hslot Hd Hin Hin' Hk)
+      as [->|(Hid & Ha & ->)]; [split; congruence|].
+    destruct Ho as [src size m Hpf Hy|src size m Hpf Hy Hsol|b p id0|a0 id0].
+    - split; [cbn; congruence|]. intros _.
+      destruct (sender_id m) as [idb|] eqn:Es; [|discriminate]. cbn in Hid. inversion Hid.
+      exists src, size, m, idb.
+      split; [reflexivity|]. split; [exact Hpf|]. split; [exact Hy|]. split; [exact Es|].
+      split; [reflexivity|]. split; [exact Ha|reflexivity].
+    - split; [|cbn; congruence]. intros _.
+      destruct (sender_id m) as [idb|] eqn:Es; [|discriminate]. cbn in Hid. inversion Hid.
+      exists src, size, m, idb.
+      split; [reflexivity|]. split; [exact Hpf|]. split; [exact Hy|]. split; [exact Hsol|].
+      split; [exact Es|]. split; [reflexivity|]. split; [exact Ha|reflexivity].
+    - split; cbn; congruence.
+    - split; cbn; congruence.
   Qed.
 
 End C06.
